@@ -190,6 +190,25 @@ pub fn judge_live(c: &crate::props::fid::FCase) -> Verdict {
                 if exc.address != ctx.rip {
                     bad!("instruction-pointer", "exception_address {:#x} != blamed thread's rip {:#x}", exc.address, ctx.rip);
                 }
+                // "that thread's ... captured context": for a parked thread the true state is known
+                if o.kind_of(o.blamed) == Some(crate::vcore::target::K_PARKED) {
+                    if let (Some((regs, _)), Some(sp)) = (o.planned_regs.get(&o.blamed), o.planned_sp.get(&o.blamed)) {
+                        for (i, name) in crate::vcore::md::GPR_NAMES.iter().enumerate() {
+                            if matches!(*name, "rax" | "rcx" | "r11" | "rsp") {
+                                continue;
+                            }
+                            if ctx.gpr[i] != regs[i] {
+                                bad!(format!("request-context:{name}"), "exception context of the blamed (parked) thread {}: {name} = {:#x}, the thread holds {:#x}", o.blamed, ctx.gpr[i], regs[i]);
+                            }
+                        }
+                        if ctx.gpr[4] != *sp {
+                            bad!("request-context:rsp", "exception context of the blamed thread {}: rsp {:#x}, the thread holds {:#x}", o.blamed, ctx.gpr[4], sp);
+                        }
+                        if ctx.rip != o.syms["park_syscall_insn"] + 2 {
+                            bad!("request-context:rip", "exception context of the blamed thread {}: rip {:#x}, the thread is parked at {:#x}", o.blamed, ctx.rip, o.syms["park_syscall_insn"] + 2);
+                        }
+                    }
+                }
             }
             None => {
                 if exc.ctx.size != 0 {
